@@ -11,7 +11,7 @@ import (
 func init() {
 	register("C01", Meta{
 		Explanation: "Structural necessary conditions of bridge solvency (mint/burn discipline): (mint-sites) every BankKeeper.MintCoins site reachable from block/message/governance processing lies in a function playing one of the roles deposit, refund, execution payout or cold-storage proposal, and BurnCoins only in the pool-insert role; (deposit-amount) the deposit mint derives from SendToHubEvent.Amount only (plus the decimals lookup) and every SendToHubEvent built inside the module takes its Amount from TransferToChainEvent.Amount only – Fee is not allowed because the contract locks _amount only; (lock-equals-emit) in Hub2.sol the value locked by transferToChain / transferETHToChain is the value emitted as _amount, and submitBatch transfers exactly _amounts[i] to _destinations[i]; (connector-amount) the Minter connector fills event Amount from the transferred value and Fee from the command; (burn-then-record) the pool insert records the entry only after SendCoinsFromAccountToModule succeeded and the same coins were burnt, the burnt value is amount+fee+commission of the parameters and the recorded Token/Fee/ValCommission derive from those parameters respectively; (refund-amount) the refund mints exactly Token+Fee+ValCommission of the looked-up entry, converted, and deletes the entry afterwards; (payout-amount) the three execution mints derive from the batch's Fee/ValCommission amounts (and FeePaid/prices), the second is clamped to the total fee and the third is total minus the second; (event-atomic) handlers run in a CacheContext whose commit is guarded by err == nil.",
-		NotDecided: []string{"the inequality supply + in-flight <= custody itself over histories", "behaviour of the ERC-20 tokens and of the Minter multisig", "the Rust orchestrator's arithmetic (only its event signature strings are checked, under C08)", "units (external vs 18-decimals) are decided by rule C01.units only where both operands carry a known unit"},
+		NotDecided:  []string{"the inequality supply + in-flight <= custody itself over histories", "behaviour of the ERC-20 tokens and of the Minter multisig", "the Rust orchestrator's arithmetic (only its event signature strings are checked, under C08)", "units (external vs 18-decimals) are decided by rule C01.units only where both operands carry a known unit"},
 		Assumptions: append(append([]string{}, commonAssumptions...), "Hub2.sol is read by a purpose-built tokenizer/bracket parser validated on every run by requiring the expected functions, events and abi.encode sites"),
 	}, checkC01)
 }
